@@ -72,6 +72,17 @@ def cases(tier, seed):
                         for t2 in short[1::4]:
                             yield dict(served=served, sup=sup,
                                        ctx=[[1, ab1, t1], [3, ab2, t2]], seed=seed)
+    # (small and early, so that a budget cut on a loaded machine never drops it) requests that
+    # name another application context, with titles of every shape: the reply repeats them
+    ra = random.Random('c09a/%d' % seed)
+    for i in range(24 if tier == 'quick' else 400):
+        served, sup = ra.choice([c for c in cfgs if c[0] and c[1]])
+        ids = ra.sample(range(1, 256, 2), ra.choice([1, 2, 3]))
+        yield dict(served=served, sup=sup, seed=seed * 100109 + i,
+                   ctx=[[pid, ra.randrange(3), ra.choice(lists)] for pid in ids],
+                   titles=[ra.choice(['SRV', 'SIXTEEN_CHARS_AE', 'x y', ' LEAD']),
+                           ra.choice(['CLI', 'B', 'CALLING_AE_TITLE'])],
+                   appctx=ra.choice(['1.2.826.0.1.3680043.8.498.77.1', '1.2.840.10008.3.1.1.1.9']))
     # several requestors negotiate with a FRESH entity at the same instant (whatever the
     # entity builds lazily on first use is built while others already use it), with line-level
     # pre-emption in every function of the association / entity modules
